@@ -54,6 +54,7 @@ type HarnessSpec struct {
 	GoMaxProcs int      `json:"gomaxprocs"`
 	Sched      bool     `json:"sched"`
 	Preempt    int      `json:"preempt"`
+	FreeYields bool     `json:"free_yields"`
 	SkipInit   bool     `json:"skip_init"`
 	InitPkgs   []string `json:"init_pkgs"`
 	Quick      TierCfg  `json:"quick"`
@@ -435,7 +436,7 @@ func confirm(spec *Spec, specDir string, rf *replayFile, path string) (bool, str
 		ok, why = confirmOnce(spec, specDir, rf, path)
 		if ok {
 			if tries > 1 {
-				why += fmt.Sprintf(" (native attempt %d of %d; depends on map iteration order)", i+1, tries)
+				why += fmt.Sprintf(" (native attempt %d of %d; depends on map iteration order or goroutine schedule)", i+1, tries)
 			}
 			return ok, why
 		}
@@ -728,7 +729,7 @@ func cmdCheck(args []string) int {
 			Name: hs.Func, Fn: fn, Mode: mode, Thorough: tier == "thorough",
 			MapOrder: hs.MapOrder, MapPermMax: hs.MapPermMax, MaxMake: hs.MaxMake, GoMaxProcs: hs.GoMaxProcs,
 			SkipInit: hs.SkipInit, InitPkgs: hs.InitPkgs,
-			Sched: hs.Sched, Preempt: hs.Preempt, Covers: hs.Covers, MaxPaths: tc.MaxPaths, Solvers: solvers, Samples: 16,
+			Sched: hs.Sched, Preempt: hs.Preempt, FreeYields: hs.FreeYields, Covers: hs.Covers, MaxPaths: tc.MaxPaths, Solvers: solvers, Samples: 16,
 			Race: mode == smt.ModeInt && os.Getenv("SYMGO_NORACE") == "",
 		}
 		if h.MapPermMax == 0 {
